@@ -3,7 +3,7 @@
 From Coq Require Import ZArith List Bool QArith Qcanon.
 From SG Require Model.StdCombi.
 From SG Require Import Base.Sx Base.QcUtil Model.CombiScheme Model.RefTree Model.DimWise Model.DimWiseInterp
-     Model.DimWiseExact Model.DimWiseWire.
+     Model.DimWiseExact Model.DimWiseFast Model.DimWiseLinMod Model.DimWiseWire.
 From SG Require Model.ExtendSplit Model.ESExact.
 Import ListNotations.
 Open Scope Z_scope.
@@ -20,10 +20,36 @@ Fixpoint states_of (o : dw_opts) (steps : list (list (list Qc))) (st : dw_state)
     else [None]
   end.
 
+(* "a rebalancing rotation changed the levels in some step so far": per step the trees after dw_step with the options of the
+   history are compared with the trees after the same step with rebalancing switched off (rotations change levels only) *)
+Definition no_rebal (o : dw_opts) : dw_opts :=
+  mkOpts (o_version o) false (o_boundary o) (o_margin o) (o_dec o) (o_v3 o).
+Definition ival_levels_eqb (x y : ival) : bool := (i_l0 x =? i_l0 y) && (i_l1 x =? i_l1 y).
+Fixpoint list_eqb {A} (eqb : A -> A -> bool) (l1 l2 : list A) : bool :=
+  match l1, l2 with
+  | [], [] => true
+  | x :: r1, y :: r2 => eqb x y && list_eqb eqb r1 r2
+  | _, _ => false
+  end.
+Definition same_levels (s1 s2 : dw_state) : bool := list_eqb (list_eqb ival_levels_eqb) (st_trees s1) (st_trees s2).
+Fixpoint rot_flags (o : dw_opts) (steps : list (list (list Qc))) (st : dw_state) (acc : bool) : list sx :=
+  match steps with
+  | [] => []
+  | bens :: r =>
+    if lengths_ok bens st then
+      match dw_step o bens st, dw_step (no_rebal o) bens st with
+      | Some st', Some st'' => let acc' := acc || negb (same_levels st' st'') in sx_bool acc' :: rot_flags o r st' acc'
+      | _, _ => [sx_err 5]
+      end
+    else [sx_err 6]
+  end.
+
+Definition state_tab (o : dw_opts) (s : dw_state) : list (Z -> list Qc) :=
+  ctab o s (st_lmin s) (Z.to_nat (list_max (st_lmax s) - st_lmin s + 1)).
+
 Definition of_optQc (v : option Qc) : sx := match v with Some q => of_Qc q | None => sx_err 7 end.
 Definition of_hat (ji : lv * lv) : sx := Lv [of_LZ (fst ji); of_LZ (snd ji)].
 
-Definition lin_fns (coef : list (Qc * Qc)) : list (Qc -> Qc) := map (fun ab => fun t : Qc => (fst ab * t + snd ab)%Qc) coef.
 Definition get_pairQ (s : sx) : option (Qc * Qc) :=
   match s with Lv [x; y] => match get_Qc x, get_Qc y with Some x, Some y => Some (x, y) | _, _ => None end | _ => None end.
 Definition get_coefs (s : sx) : option (list (Qc * Qc)) :=
@@ -45,7 +71,8 @@ Definition get_area (s : sx) : option (ExtendSplit.box * list (lv * Z)) :=
 (* sub 2: (a b areas) -> (moments_additive (valid_local_combi per area) (es_integral per multilinear exponent vector)) *)
 (* sub 0: (history points) -> (hats ((keeps integrals interpolants) per state))   [boundary from the history, modified basis off]
           integrals: one per hat; interpolants: per point, one per hat
-   sub 1: (history mb ((alpha beta) per dimension) per function) -> per state the combined integral of each product function *)
+   sub 3: history -> per state: has a rebalancing rotation changed the levels in some step so far
+   sub 1: (history mb ((alpha beta) per dimension) per function) -> per state (lin_mod_okb, the combined integral of each product function) *)
 Definition entry_C04 (sub : Z) (x : sx) : sx :=
   match sub, x with
   | 0, Lv [Lv (w :: dm :: Zv lmin :: Zv lmax :: rest) as h; pts] =>
@@ -56,9 +83,12 @@ Definition entry_C04 (sub : Z) (x : sx) : sx :=
         match s with
         | None => sx_err 5
         | Some s =>
-          Lv [ sx_bool (dw_keeps_initial_space o s a b lmin lmax);
-               Lv (map (fun ji => of_optQc (dw_combi_integral o false s a b (hat_list a b (fst ji) (snd ji)))) hats);
-               Lv (map (fun p => Lv (map (fun ji => of_Qc (dw_combi_interp o s a b (StdCombi.fun_hat a b (fst ji) (snd ji)) p)) hats)) pts) ]
+          (* tabulated stripes: equal to dw_keeps_initial_space / dw_combi_integral / dw_combi_interp (Proofs/DimWiseFast.v) *)
+          let tab := state_tab o s in
+          let ints := map (fun ji => dw_combi_integral_fast o false s tab a b (hat_list a b (fst ji) (snd ji))) hats in
+          Lv [ sx_bool (keeps_of a b hats ints);
+               Lv (map of_optQc ints);
+               Lv (map (fun p => Lv (map (fun ji => of_Qc (dw_combi_interp_fast o s tab a b (StdCombi.fun_hat a b (fst ji) (snd ji)) p)) hats)) pts) ]
         end in
       Lv [Lv (map of_hat hats); Lv (map one (Some st :: states_of o steps st))]
     | inr e, _ => sx_err e
@@ -72,7 +102,9 @@ Definition entry_C04 (sub : Z) (x : sx) : sx :=
         let one (s : option dw_state) : sx :=
           match s with
           | None => sx_err 5
-          | Some s => Lv (map (fun cf => of_optQc (dw_combi_integral o mb s a b (lin_fns cf))) fns)
+          | Some s => let tab := state_tab o s in
+                      Lv [ sx_bool (lin_mod_okb o s a b);
+                           Lv (map (fun cf => of_optQc (dw_combi_integral_fast o mb s tab a b (lin_fns cf))) fns) ]
           end in
         Lv (map one (Some st :: states_of o steps st))
       | None => sx_err 3
@@ -88,6 +120,12 @@ Definition entry_C04 (sub : Z) (x : sx) : sx :=
            Lv (map (fun exps => Lv [of_LZ (map Z.of_nat exps); of_Qc (ESExact.es_integral a b areas exps)])
                    (ESExact.multilinear_exps (length a))) ]
     | _, _, _ => sx_err 2
+    end
+  | 3, h =>
+    match decode_history h with
+    | inl (Some (_, o, a, b, steps, st)) => Lv (sx_bool false :: rot_flags o steps st false)
+    | inl None => sx_err 9
+    | inr e => sx_err e
     end
   | _, _ => sx_err 0
   end.
